@@ -153,10 +153,17 @@ def mapKws (key : Option FieldDecl) (valSchema : Option PyVal) (sz : SizeOpts) :
   ++ optKw "maxProperties" (sz.max.map natJ)
   ++ optKw "minProperties" (sz.min.map natJ)
 
-/-- `EnumMapper.to_schema.adjust` raises TypeError unless the literal is an int, str or float -/
-def enumValOk : PyVal → Bool
+/-- an enum literal that is a JSON scalar other than null: an int, str or float (`True` / `False` are
+    ints) -/
+def enumScalar : PyVal → Bool
   | .str _ | .int _ | .float _ | .bool _ => true
   | _ => false
+
+/-- `EnumMapper.to_schema.adjust` raises TypeError unless the literal is an int, str, float or None
+    (None is JSON null, a legal enum member) -/
+def enumValOk : PyVal → Bool
+  | .none => true
+  | v => enumScalar v
 
 def refTo (name : String) : PyVal := .dict [kw "$ref" (.str ("#/definitions/" ++ name))]
 
